@@ -53,7 +53,7 @@ REL = 1e-9
 def minimums(tier: str) -> Dict[str, int]:
     if tier == "quick":
         return {"evaluations": 1000, "distinct": 900, "glyphs_compared": 20000, "glyph_matrices_asserted": 15000, "form_invocations": 400,
-                "malformed_ops": 1500, "split_contents_docs": 300, "seen:operators": 26}
+                "malformed_ops": 1500, "split_contents_docs": 300, "seen:operators": 26, "glyphs_two_byte_font": 2000, "glyphs_cid32_two_byte": 60}
     return {"evaluations": 30000, "distinct": 28000, "glyphs_compared": 600000, "glyph_matrices_asserted": 450000,
             "form_invocations": 25000, "malformed_ops": 45000, "split_contents_docs": 9000, "seen:operators": 26}
 
@@ -79,11 +79,34 @@ def gen_matrix(rng: random.Random) -> List[F]:
     return [F(a), F(b), F(c), F(d), dy(rng, -60, 60, 4), dy(rng, -60, 60, 4)]
 
 
+def gen_cid_font(rng: random.Random, rn: str, fname: str) -> Tuple[FontModel, Dict[str, Any]]:
+    """A Type0 font with the Identity-H encoding: two-byte codes are the CIDs; advances from /W and /DW."""
+    dw = rng.choice([1000, 500, 0, 750])
+    cidw: Dict[int, int] = {}
+    W: List[Any] = []
+    for start in rng.sample([0, 32, 65, 0x2020, 0x4120, 0x7a7a, 300], 4):
+        ws = [rng.choice([0, 250, 500, 1000, 125, 600]) for _ in range(rng.randint(1, 4))]
+        W += [start, ws]
+        for j, w in enumerate(ws):
+            cidw[start + j] = w
+    descent = rng.choice([-200, -250, 0])
+    fd = {"Type": N("FontDescriptor"), "FontName": N(fname), "Flags": 4, "FontBBox": [0, descent, 1000, 800], "ItalicAngle": 0,
+          "Ascent": 800, "Descent": descent, "CapHeight": 700, "StemV": 80, "MissingWidth": rng.choice([0, 333])}
+    cid = {"Type": N("Font"), "Subtype": N("CIDFontType2"), "BaseFont": N(fname), "FontDescriptor": fd, "DW": dw, "W": W,
+           "CIDSystemInfo": {"Registry": b"Adobe", "Ordering": b"Identity", "Supplement": 0}}
+    d = {"Type": N("Font"), "Subtype": N("Type0"), "BaseFont": N(fname), "Encoding": N("Identity-H"), "DescendantFonts": [cid]}
+    return FontModel(rn, fname, 0, [], 0, descent, cid_widths=cidw, dw=dw), d
+
+
 def gen_fonts(rng: random.Random, prefix: str, k: int) -> Tuple[Dict[str, FontModel], Dict[str, Any]]:
     fonts: Dict[str, FontModel] = {}
     res: Dict[str, Any] = {}
+    cid_at = rng.randrange(k) if rng.random() < 0.35 else -1
     for i in range(k):
         rn = "F%d" % (i + 1)
+        if i == cid_at:
+            fonts[rn], res[rn] = gen_cid_font(rng, rn, "%s-%s" % (prefix, rn))
+            continue
         first = rng.choice([0, 32, 32, 40])
         n = rng.choice([95, 224, 60])
         widths = [rng.choice([0, 250, 500, 600, 333, 1000, 125, 722, 278, 556]) for _ in range(n)]
@@ -96,9 +119,18 @@ def gen_fonts(rng: random.Random, prefix: str, k: int) -> Tuple[Dict[str, FontMo
     return fonts, res
 
 
-def gen_string(rng: random.Random) -> bytes:
+def gen_string(rng: random.Random, even: bool = False) -> bytes:
     n = rng.choice([1, 1, 2, 3, 5, 8])
-    return bytes(rng.choice(b"AB Cx y(z)\\12 ") if rng.random() < 0.7 else rng.randint(32, 126) for _ in range(n))
+    b = bytes(rng.choice(b"AB Cx y(z)\\12 ") if rng.random() < 0.7 else rng.randint(32, 126) for _ in range(n))
+    if even:
+        # a two-byte font may be current: whole codes only, and sometimes the two-byte code <0020> (CID 32), which must
+        # NOT receive word spacing
+        if len(b) % 2:
+            b += b" "
+        if rng.random() < 0.35:
+            k = 2 * rng.randrange(len(b) // 2 + 1)
+            b = b[:k] + b"\x00 " + b[k:]
+    return b
 
 
 TEXT_STATE_OPS = ["Tc", "Tw", "Tz", "TL", "Tf", "Ts"]
@@ -107,7 +139,8 @@ NARGS = {"Tc": 1, "Tw": 1, "Tz": 1, "TL": 1, "Ts": 1, "Tf": 2, "Td": 2, "TD": 2,
 
 
 class ProgGen:
-    def __init__(self, rng: random.Random, fontnames: List[str], forms: List[str], p_bad: float) -> None:
+    def __init__(self, rng: random.Random, fontnames: List[str], forms: List[str], p_bad: float, even: bool = False) -> None:
+        self.even = even     # strings of even length (a two-byte font is among the fonts)
         self.rng = rng
         self.fontnames = fontnames
         self.forms = forms
@@ -133,13 +166,13 @@ class ProgGen:
         if name in ("Tm", "cm"):
             return Op(name, gen_matrix(rng))
         if name in ("Tj", "'"):
-            return Op(name, [gen_string(rng)])
+            return Op(name, [gen_string(rng, self.even)])
         if name == '"':
-            return Op(name, [dy(rng, -2, 6), dy(rng, -1, 3), gen_string(rng)])
+            return Op(name, [dy(rng, -2, 6), dy(rng, -1, 3), gen_string(rng, self.even)])
         if name == "TJ":
             arr: List[Any] = []
             for _ in range(rng.randint(1, 5)):
-                arr.append(gen_string(rng) if rng.random() < 0.6 else rng.choice([dy(rng, -300, 300), rng.randint(-500, 500)]))
+                arr.append(gen_string(rng, self.even) if rng.random() < 0.6 else rng.choice([dy(rng, -300, 300), rng.randint(-500, 500)]))
             return Op(name, [arr])
         if name in ("g", "G"):
             return Op(name, [dy(rng, 0, 1)])
@@ -258,7 +291,7 @@ def gen_case(seed_str: str, tier: str) -> Dict[str, Any]:
             else:
                 ffonts, ffont_res = outer_fonts, None
             sub_m, sub_x = make_forms(level + 1, ffonts, tag + name) if (own_res and rng.random() < 0.5) else ({}, {})
-            pg = ProgGen(rng, sorted(ffonts), sorted(sub_m), p_bad)
+            pg = ProgGen(rng, sorted(ffonts), sorted(sub_m), p_bad, even=any(f.multibyte for f in ffonts.values()))
             pg.ops = form_preamble(rng, sorted(ffonts))
             ops = pg.build(rng.randint(2, 5), first_tf=False)
             matrix = gen_matrix(rng) if rng.random() < 0.7 else None
@@ -277,7 +310,7 @@ def gen_case(seed_str: str, tier: str) -> Dict[str, Any]:
         return mforms, xres
 
     mforms, xres = make_forms(1, page_fonts, "")
-    pg = ProgGen(rng, sorted(page_fonts), sorted(mforms), p_bad)
+    pg = ProgGen(rng, sorted(page_fonts), sorted(mforms), p_bad, even=any(f.multibyte for f in page_fonts.values()))
     ops = pg.build(rng.randint(4, 12) if tier == "quick" else rng.randint(4, 22))
     toks = emit_tokens(ops)
     # one stream, or a Contents array split at white-space positions
@@ -402,7 +435,7 @@ def compare(case: Dict[str, Any], rec: Any = None) -> List[Tuple[str, str]]:
     if len(chars) != len(exp):
         # find the first divergence in the code sequence
         got_txt = [c.get_text() for c in chars]
-        exp_txt = [chr(g.code) for g in exp]
+        exp_txt = [("(cid:%d)" % g.code) if (isinstance(g.font, FontModel) and g.font.multibyte) else chr(g.code) for g in exp]
         i = 0
         while i < min(len(got_txt), len(exp_txt)) and got_txt[i] == exp_txt[i]:
             i += 1
@@ -413,8 +446,14 @@ def compare(case: Dict[str, Any], rec: Any = None) -> List[Tuple[str, str]]:
         if rec is not None:
             rec.count("glyphs_compared")
         where = "glyph #%d code %d (%s) depth %d" % (g.index, g.code, g.fontname, g.depth)
-        if c.get_text() != chr(g.code):
-            fails.append(("glyph_text", "%s: text %r" % (where, c.get_text())))
+        mb = isinstance(g.font, FontModel) and g.font.multibyte
+        if rec is not None and mb:
+            rec.count("glyphs_two_byte_font")
+            if g.code == 32:
+                rec.count("glyphs_cid32_two_byte")
+        exp_text = "(cid:%d)" % g.code if mb else (chr(g.code) if 32 <= g.code <= 126 else None)
+        if exp_text is not None and isinstance(g.font, FontModel) and c.get_text() != exp_text:
+            fails.append(("glyph_text", "%s: text %r expected %r" % (where, c.get_text(), exp_text)))
             break
         if g.fontname is not UNKNOWN and c.fontname != g.fontname:
             fails.append(("glyph_font", "%s: fontname %r" % (where, c.fontname)))
